@@ -201,11 +201,11 @@ def _str_root(b, op, depth=6):
     return None
 
 
-def rule_samestr(ctx, rep):
+def rule_samestr(ctx, rep, rid="R-C14-samestr"):
     """An offset found in one string is only meaningful in that string.  (The frozen justifications of the slice inventory say "offset
     returned by find()"; this rule checks the part they silently assume: find() ran on the very string that is cut.)"""
     from vlib.numflow import slice_of
-    r = rep.rule("R-C14-samestr", "byte offsets are used on the string they were found in: for every string range-index whose bounds come from "
+    r = rep.rule(rid, "byte offsets are used on the string they were found in: for every string range-index whose bounds come from "
                                   "find/rfind/len/char_indices, the searched/measured string is the sliced string itself (not a transformed copy)",
                  floor=3, floor_what="slice sites with searched offsets")
     n = 0
